@@ -277,6 +277,25 @@ ROOT = {
 }
 
 
+LONGDOUBLE_SEEN = set()
+_KNOWN_LD = []
+
+
+def known_longdouble_paths():
+    if not _KNOWN_LD:
+        import pathlib
+        paths = set()
+        try:
+            d = json.loads((pathlib.Path(__file__).resolve().parent.parent / "known_findings.json").read_text())
+            for f in d["findings"]:
+                if f.get("key") == ROOT["longdouble-rounded"]:
+                    paths |= set(f.get("result_paths", []))
+        except Exception:  # noqa
+            pass
+        _KNOWN_LD.append(paths)
+    return _KNOWN_LD[0]
+
+
 def has_slash_key(v):
     if isinstance(v, dict):
         return any((isinstance(k, str) and "/" in k) or has_slash_key(x) for k, x in v.items())
@@ -286,14 +305,24 @@ def has_slash_key(v):
 class Mismatch:
     """collects (key, what) pairs: key = stable finding class, what = path + observed vs required"""
 
-    def __init__(self, site):
-        self.site, self.items = site, []
+    def __init__(self, site, real=False):
+        self.site, self.items, self.real = site, [], real
 
     def add(self, cls, path, what):
         if cls == "structured-array-field-names" and path == ["posterior_samples"] \
                 and self.site.startswith("FlowSampler.save_results"):
             cls = "posterior_samples-field-names"   # save_results converts these with live_points_to_dict
         key = ROOT.get(cls) or f"{self.site}:{cls}"
+        if cls == "longdouble-rounded" and self.real:
+            # in REAL result files the known finding is limited to the entries that are long double on the pinned tree (listed
+            # in known_findings.json); a long double anywhere else — e.g. the reported uncertainty, seeded change C19-hA — is a
+            # different violation of the same property
+            pp = [c for c in path]
+            while pp and pp[-1].isdigit():
+                pp.pop()                       # the entry of a list: the list is the result entry
+            LONGDOUBLE_SEEN.add("/".join(pp))
+            if "/".join(pp) not in known_longdouble_paths():
+                key = f"{self.site}:longdouble-rounded:{'/'.join(pp)}"
         self.items.append((key, f"at {'/'.join(path) or '<root>'}: {what}"))
 
 
